@@ -47,6 +47,7 @@ Hypothesis HTs : zsum T = n1 + n2.
 Hypothesis Hn1 : 0 <= n1.
 Hypothesis Hn2 : 0 <= n2.
 Hypothesis Hcdf : forall q, frac_eq (cdf n1 n2 T q) (count_le T n1 (q / 2)) (total T n1).
+Hypothesis Hcdfr : forall q, frac_eq (cdf n1 n2 (rev T) q) (count_le (rev T) n1 (q / 2)) (total (rev T) n1).
 
 Lemma div2 w : 2 * w / 2 = w.
 Proof. rewrite Z.mul_comm. apply Z.div_mul. lia. Qed.
@@ -58,11 +59,11 @@ Proof.
   split.
   - pose proof (Hcdf (2 * us_twoU1 s)) as H. rewrite div2 in H.
     unfold pfrac_eq, exact_p. cbn [pexact_frac]. exact H.
-  - pose proof (Hcdf (2 * (us_twoU1 s - 1))) as H. rewrite div2 in H.
-    unfold pfrac_eq, exact_p. cbn [pexact_frac]. unfold frac_eq in H. fold n1 n2 T.
-    destruct (dres_frac (cdf n1 n2 T (2 * (us_twoU1 s - 1)))) as [[a b]|]; [|contradiction].
-    destruct H as [Hab Hb]. split; [|exact Hb].
-    pose proof (count_ge_le T n1 (us_twoU1 s)) as Hc. rewrite (count_all_total T HT0) in Hc. nia.
+  - pose proof (Hcdfr (2 * twoU2 s)) as H. rewrite div2 in H.
+    assert (Hc : count_le (rev T) n1 (twoU2 s) = count_ge T n1 (us_twoU1 s))
+      by (rewrite (twoU2_mirror s HTs); apply count_le_rev; exact HT0).
+    rewrite Hc, total_rev in H.
+    unfold pfrac_eq, exact_p. cbn [pexact_frac]. fold n1 n2 T. exact H.
 Qed.
 
 (** symmetric distribution: the code's two-sided value is the property's *)
@@ -104,9 +105,12 @@ Theorem one_sided_exact_untied x1 x2 :
   /\ pfrac_eq (exact_p s Greater) (count_ge (us_T s) (us_n1 s) (us_twoU1 s)) (total (us_T s) (us_n1 s)).
 Proof.
   intros s Hh. destruct (us_T_wf x1 x2) as [Hpos Hsum].
+  assert (Hrev : rev (us_T s) = us_T s) by (unfold s; rewrite (untied_T_ones x1 x2 Hh); apply ones_palindrome).
   apply one_sided_from_cdf.
   - eapply Forall_impl; [|exact Hpos]. cbn. intros; lia.
+  - exact Hsum.
   - intros q. apply (cdf_untied_stat x1 x2 q Hh).
+  - intros q. rewrite Hrev. apply (cdf_untied_stat x1 x2 q Hh).
 Qed.
 
 (** ** the two-sided value without ties is the property's *)
